@@ -95,7 +95,7 @@ func (g *Gen) zero(t types.Type) Val {
 	case SFn:
 		v.T = "fn.nil"
 	case SF64:
-		v.T = "(_ +zero 11 53)"
+		v.T = "f.zero"
 	case "":
 		if st, ok := t.Underlying().(*types.Struct); ok {
 			for i := 0; i < st.NumFields(); i++ {
